@@ -95,17 +95,18 @@ theorem enqueue_ok (s : Subscriber) (e : Event) (h : SubOK s) : SubOK (enqueueEv
   · exact h
   · split <;> exact ⟨h.1, h.2⟩
 
-theorem enqueueAll_ok (evs : List Event) : ∀ (s : Subscriber), SubOK s → SubOK (evs.foldl enqueueEvent s) := by
+theorem enqueueAll_ok (evs : List Event) : ∀ (s : Subscriber), SubOK s →
+    SubOK (evs.foldl (fun s e => enqueueEvent { s with queue := freezeCovered e s.queue } e) s) := by
   induction evs with
   | nil => intro s h; exact h
-  | cons e evs ih => intro s h; exact ih _ (enqueue_ok s e h)
+  | cons e evs ih => intro s h; exact ih _ (enqueue_ok _ e ⟨h.1, h.2⟩)
 
 theorem doWalk_ok (c : Cache.State) (s : Subscriber) (h : SubOK s) : SubOK (doWalk c s) := by
   unfold doWalk
   split <;> exact ⟨h.1, h.2⟩
 
-theorem fresh_ok (id : String) (r : Req) (a : Acl) : SubOK { id := id, req := r, acl := a } :=
-  ⟨by simp, by simp⟩
+theorem fresh_ok (g : Bool) (id : String) (r : Req) (a : Acl) : SubOK (newSubscriber g id r a) :=
+  ⟨by simp [newSubscriber], by simp [newSubscriber]⟩
 
 /-- every subscriber of the server state is fine -/
 def AllOK (st : Sub.State) : Prop := ∀ s ∈ st.subs, SubOK s
@@ -143,21 +144,23 @@ theorem subscribe_ok (st : Sub.State) (id : String) (a : Acl) (req : Option Req)
               · split
                 · apply added
                   apply pumpAll_ok
-                  have := doWalk_ok st.cache { id := id, req := r, acl := a } (fresh_ok id r a)
+                  have := doWalk_ok st.cache _ (fresh_ok (st.pregated.contains id) id r a)
                   split <;> first | exact ⟨this.1, this.2⟩ | exact this
                 · apply added
-                  exact pumpAll_ok _ (doWalk_ok _ _ (fresh_ok id r a))
+                  exact pumpAll_ok _ (doWalk_ok _ _ (fresh_ok _ id r a))
                 · apply added
                   apply pumpAll_ok
                   have h0 : SubOK (if r.updatesOnly = true then
-                      { ({ id := id, req := r, acl := a } : Subscriber) with
-                        queue := insertSync ({ id := id, req := r, acl := a } : Subscriber).queue }
-                      else { id := id, req := r, acl := a }) := by
-                    split <;> exact ⟨by simp, by simp⟩
+                      { newSubscriber (st.pregated.contains id) id r a with
+                        queue := insertSync (newSubscriber (st.pregated.contains id) id r a).queue }
+                      else newSubscriber (st.pregated.contains id) id r a) := by
+                    split
+                    · exact ⟨(fresh_ok (st.pregated.contains id) id r a).1, (fresh_ok (st.pregated.contains id) id r a).2⟩
+                    · exact fresh_ok (st.pregated.contains id) id r a
                   generalize (if r.updatesOnly = true then
-                      { ({ id := id, req := r, acl := a } : Subscriber) with
-                        queue := insertSync ({ id := id, req := r, acl := a } : Subscriber).queue }
-                      else { id := id, req := r, acl := a }) = s0 at h0
+                      { newSubscriber (st.pregated.contains id) id r a with
+                        queue := insertSync (newSubscriber (st.pregated.contains id) id r a).queue }
+                      else newSubscriber (st.pregated.contains id) id r a) = s0 at h0
                   have h1 : SubOK { s0 with regs := regQueries r } := ⟨h0.1, h0.2⟩
                   split
                   · exact h1
